@@ -181,7 +181,8 @@ func init() {
 			return useBody{}
 		}
 		if _, ok := args[0].(symstr); ok {
-			return opaqueStr{"<symbolic format>"}
+			// a format string with symbolic bytes: the library's own directive parser is interpreted
+			return useBody{}
 		}
 		return fr.sprintf(args[0].(string), args[1].([]value))
 	}
